@@ -13,14 +13,22 @@ inductive PTy where
   | dim (d : DimV)
   | bool
   | list (t : PTy)
+  /-- a struct type: the field types in the order of the definition (field names play no role at run time) -/
+  | struct (ts : List PTy)
   | args (ts : List PTy)
 
-/-- value types: what a variable, a parameter, a list element or a function result can have -/
+mutual
+/-- value types: what a variable, a parameter, a list element, a field or a function result can have -/
 def PTy.isVal : PTy → Bool
   | .dim _ => true
   | .bool => true
   | .list t => t.isVal
+  | .struct ts => PTy.allVal ts
   | .args _ => false
+def PTy.allVal : List PTy → Bool
+  | [] => true
+  | t :: ts => t.isVal && PTy.allVal ts
+end
 
 /-- A function signature, given by the set of its monomorphic instances `(parameter types, result type)`: a
 generic function `fn f<D: Dim>(x: D) -> D^2` has one instance per dimension `D`; a monomorphic one has one
@@ -73,6 +81,11 @@ inductive HasTy (tbl : Table α) (S : List FnSig) (Γ : List GTy) (L : List PTy)
   | head {l t} : t.isVal = true → HasTy tbl S Γ L l (.list t) → HasTy tbl S Γ L (.head l) t
   | tail {l t} : HasTy tbl S Γ L l (.list t) → HasTy tbl S Γ L (.tail l) (.list t)
   | cons {a l t} : HasTy tbl S Γ L a t → HasTy tbl S Γ L l (.list t) → HasTy tbl S Γ L (.cons a l) (.list t)
+  | mk {fields ts} : PTy.allVal ts = true → HasTy tbl S Γ L fields (.args ts) →
+      HasTy tbl S Γ L (.mk fields) (.struct ts.reverse)
+  | get {e ts} (i : Nat) (t : PTy) : t.isVal = true → PTy.allVal ts = true → ts[i]? = some t →
+      HasTy tbl S Γ L e (.struct ts) →
+      HasTy tbl S Γ L (.get e i) t
   | len {l t} : t.isVal = true → HasTy tbl S Γ L l (.list t) → HasTy tbl S Γ L (.len l) (.dim (fun _ => 0))
 
 /-- typing of the `where` clauses of a function: each right-hand side is typed with the parameters and the
@@ -88,18 +101,18 @@ def VOK (tbl : Table α) : PVal α → PTy → Prop
   | .q x, .dim d => ValOK tbl x d
   | .b _, .bool => True
   | .list vs, .list t => VOKAll tbl vs t
+  | .struct vs, .struct ts => EnvOK tbl vs ts
   | _, _ => False
 /-- every element of a list agrees with the element type -/
 def VOKAll (tbl : Table α) : List (PVal α) → PTy → Prop
   | [], _ => True
   | v :: vs, t => VOK tbl v t ∧ VOKAll tbl vs t
-end
-
-/-- a list of values agrees with a list of types, position by position (arguments) -/
+/-- a list of values agrees with a list of types, position by position (arguments, struct fields) -/
 def EnvOK (tbl : Table α) : List (PVal α) → List PTy → Prop
   | [], [] => True
   | v :: vs, t :: ts => VOK tbl v t ∧ EnvOK tbl vs ts
   | _, _ => False
+end
 
 /-- the globals agree with their types: every global agrees with every instance of its type -/
 def GlobOK (tbl : Table α) : List (PVal α) → List GTy → Prop
